@@ -38,3 +38,7 @@ prop('C19', ['DC1', 'DC2', 'DC3', 'DC4', 'DC5', 'G4', 'F8'], 'dataclasses', ['al
 prop('C20', ['R1', 'R2', 'R3', 'F1'], 'ravel', ['numerical inverse'])
 
 prop('CX4', ['K3', 'K4', 'K7', 'M1', 'M2', 'M3', 'M6', 'M7', 'T4'], 'tmp', [])
+
+prop('C07', ['P1', 'P2cxx', 'P2py', 'W1', 'H3'], 'prefix', ['exactness'])
+
+prop('CX5', ['E2', 'E3', 'E4', 'L2', 'W2', 'F10'], 'tmp', [])
